@@ -109,6 +109,7 @@ Section Prims.
       + rewrite gv_resume; auto.
       + rewrite gv_resume; auto.
       + inversion H; subst; auto.
+      + inversion H; subst; auto.
   Qed.
 
   Lemma gv_after st2 oc rid k c resched :
